@@ -236,6 +236,8 @@ def check(prop, tier, only=None, quiet=False, only_hashseed=None):
             inconclusive.append(f"deciding monitor never reached: {name}")
         if not m["cases"]:
             inconclusive.append("no case executed")
+        if hasattr(P, "inconclusive_reasons"):
+            inconclusive.extend(P.inconclusive_reasons(m))
     if only is None:
         write_evidence(prop, tier, seed, P, m, hashseeds, wall, sorted(known_hit), len(new),
                        inconclusive)
